@@ -506,7 +506,22 @@ func (s *Sys) settle(deadline time.Duration) {
 		}
 		now := time.Since(s.W.t0).Microseconds()
 		agree := (st == "Running") == (openRuns(l) > 0)
-		if st != "Recovering" && agree && now-last > quiet.Microseconds() {
+		// a stop that was accepted (returned nil) after the last Running write is still being carried out as long
+		// as no closing status has followed: on a loaded machine that takes tens of milliseconds without a single
+		// event, which is not quiet
+		stopping := false
+		if st == "Running" {
+			for i := len(l) - 1; i >= 0; i-- {
+				if l[i].K == "st" {
+					break
+				}
+				if l[i].K == "ret" && l[i].B == "nil" && (l[i].A == "stop" || l[i].A == "stopall" || l[i].A == "stopwait" || l[i].A == "force") {
+					stopping = true
+					break
+				}
+			}
+		}
+		if st != "Recovering" && agree && !stopping && now-last > quiet.Microseconds() {
 			return
 		}
 		time.Sleep(300 * time.Microsecond)
